@@ -54,6 +54,14 @@ FAMILY["case-twins"] = [("parameters", "Na", ["k=1.0", "K=2.0"]), ("parameters",
                         ("expressions", "Na", ["dx_dt = k*X - x", "dX_dt = K*x - q"]), ("expressions", "NA", ["i_K = Q*y", "I_K = q*y + x", "dy_dt = i_K - I_K"])]
 
 
+# a declaration restated in the same component with an equal but differently written value (1 / 1.0, 1/2 / 0.5): whatever the library does
+# with it (refuse, or keep one), the outcome must be the same for every order of the blocks and of the entries
+FAMILY["restated-equal-value"] = [("parameters", "A", ["g=1", "k=2.0"]), ("parameters", "A", ["g=1.0"]), ("states", "A", ["x=1.0", "y=1/2"]), ("states", "A", ["y=0.5"]),
+                                  ("expressions", "A", ["dx_dt = g*y - k*x", "dy_dt = x - y"])]
+FAMILY["restated-equal-value-flat"] = [("parameters", "", ["g=1", "k=2.0", "g=1.0"]), ("states", "", ["x=1.0", "y=0.5"]),
+                                       ("expressions", "", ["dx_dt = g*y - k*x", "dy_dt = x - y"])]
+
+
 def render(blocks):
     lines = []
     for kind, comp, ents in blocks:
